@@ -367,6 +367,50 @@ def clipDim (t : Owned) (dim start stop : Nat) : Option Owned :=
     if rangeStart + rangeLen ≤ t.dataLen then some ⟨nl, min t.dataLen rangeLen, t.cap⟩ else none
   else none
 
+/-! ### In-place layout edits (`DynLayout: ResizeLayout`, `move_axis`, `size` / `stride`)
+
+Semantics of the code after fix `90df0e8`: every axis argument is checked against the rank
+before anything is written, so a failing call (`none` = panic) leaves the layout unchanged. -/
+
+/-- `Layout::size(dim)` / `Layout::stride(dim)`: panic for `dim ≥ ndim`. -/
+def sizeOf? (dims : List (Nat × Nat)) (dim : Nat) : Option Nat :=
+  if dim < dims.length then some (sizeAt dims dim) else none
+def strideOf? (dims : List (Nat × Nat)) (dim : Nat) : Option Nat :=
+  if dim < dims.length then some (strideAt dims dim) else none
+
+/-- `remove_axis(index)`: the axis must exist and have size 1. -/
+def removeAxis (dims : List (Nat × Nat)) (index : Nat) : Option (List (Nat × Nat)) :=
+  if index < dims.length ∧ sizeAt dims index = 1 then some (dims.eraseIdx index) else none
+
+/-- `max_by_key(|(stride, _)| stride)`: the *last* dimension with the largest stride. -/
+def maxByStride : List (Nat × Nat) → Option (Nat × Nat)
+  | [] => none
+  | d :: ds =>
+    match maxByStride ds with
+    | none => some d
+    | some m => if d.2 > m.2 then some d else some m
+
+def insertAt {α : Type} : List α → Nat → α → List α
+  | l, 0, a => a :: l
+  | [], _ + 1, a => [a]
+  | x :: xs, n + 1, a => x :: insertAt xs n a
+
+/-- `insert_axis(index)`: a size-1 axis whose stride is `max_stride * size_of_that_dim`
+(`1` for a scalar). -/
+def insertAxis (dims : List (Nat × Nat)) (index : Nat) : Option (List (Nat × Nat)) :=
+  if index ≤ dims.length then
+    let st := match maxByStride dims with
+      | none => 1
+      | some m => m.2 * m.1
+    some (insertAt dims index (1, st))
+  else none
+
+/-- `move_axis(from, to)`. -/
+def moveAxis (dims : List (Nat × Nat)) (src dst : Nat) : Option (List (Nat × Nat)) :=
+  if src < dims.length ∧ dst < dims.length then
+    some (insertAt (dims.eraseIdx src) dst (dims.getD src (0, 0)))
+  else none
+
 /-! ## Machine model (`UInt64`, wrap-around) -/
 namespace M
 
